@@ -438,6 +438,95 @@ def r2_5(ctx):
     ctx.floor(rid, n, 44, "description- and claim-withdrawing call sites")
 
 
+def c14_units():
+    from rules import c14
+    return c14.units_alloc()
+
+
+def _r28_owner(t):
+    """the object a divisor / expression text belongs to: `gx.expr.inhomogeneous_term()` -> gx, `g->divisor()` -> g,
+    `-point_divisor` -> point, `point_expr` -> point, `new_g.expr` -> new_g; None when the text is not of that kind."""
+    import re
+    t = t.replace(" ", "")
+    w = re.match(r"^(?:\w+::)*\w+\((.*)\)$", t)            # a conversion wrapped around the value: GMP_Integer(-point_divisor)
+    if w and not re.search(r"(divisor|inhomogeneous_term|expression)\(\)$", t):
+        t = w.group(1)
+    t = t.lstrip("-")
+    if t.startswith(">"):                                  # `->g->divisor()`: operator-> of an iterator, printed in front
+        t = t[1:]
+    m = re.match(r"^(\w+)(?:\.|->)(?:expr\.inhomogeneous_term\(\)|divisor\(\)|expr|expression\(\))$", t)
+    if m:
+        return m.group(1)
+    m = re.match(r"^(\w+?)_(?:divisor|expr)$", t)
+    if m:
+        return m.group(1)
+    if re.match(r"^\w+$", t):
+        return t
+    return None
+
+
+def r2_8(ctx):
+    import re
+    rid = "R2.8"
+    ctx.rule(rid, "a vector is never scaled by its own divisor: to add or subtract two points p = a/d1 and q = b/d2 the coordinates are brought to the common denominator d1*d2 by cross-multiplication, a*d2 and b*d1. In every `x.linear_combine(y, c1, c2, ..)` (x := c1*x + c2*y) whose factor c1 or c2 is the divisor of a named generator or point (`g.expr.inhomogeneous_term()`, `g->divisor()`, `point_divisor`), the factor that multiplies x is not x's own divisor and the factor that multiplies y is not y's own — the owner of x follows copies (`Generator new_g = g`, `Linear_Expression e = point_expr`)")
+    fx = ctx.extract(c14_units())
+    n = 0
+    seen = set()
+    for f in fx.functions:
+        if (f.relfile, f.line) in seen:
+            continue
+        seen.add((f.relfile, f.line))
+        alias = {}
+        for v in f.walk():
+            if v["k"] == "var" and v.get("c") and v.get("n"):
+                src = _r28_owner(f.text(f.deref(v["c"][-1])))
+                if src and src != v["n"]:
+                    alias[v["n"]] = src
+                    own = _r28_owner(v["n"])
+                    if own and own != v["n"] and own != src:
+                        alias.setdefault(own, src)
+
+        def closure(o):
+            out = set()
+            while o is not None and o not in out:
+                out.add(o)
+                o2 = _r28_owner(o) if _r28_owner(o) != o else None
+                if o2:
+                    out.add(o2)
+                o = alias.get(o) or (alias.get(o2) if o2 else None)
+            return out
+        for c in f.calls():
+            if c["k"] != "mcall" or f.call_name(c).lstrip("~") != "linear_combine":
+                continue
+            args = f.call_args(c)
+            obj = f.call_obj(c)
+            if len(args) < 3 or obj is None:
+                continue
+            xo = _r28_owner(f.text(obj))
+            yo = _r28_owner(f.text(f.deref(args[0])))
+            facts_ = []
+            for which, a in (("c1", args[1]), ("c2", args[2])):
+                t = f.text(f.deref(a)).replace(" ", "")
+                if re.search(r"inhomogeneous_term\(\)\)?$|divisor\(\)\)?$|_divisor\)?$", t):
+                    facts_.append((which, t, _r28_owner(t)))
+            if not facts_ or xo is None or yo is None:
+                continue
+            n += 1
+            inst = "%s: %s (line %s)" % (f.name, f.text(c).replace("\n", " ")[:70], c.get("l"))
+            bad = None
+            for which, t, o in facts_:
+                if o is None:
+                    continue
+                mine = closure(xo) if which == "c1" else closure(yo)
+                if closure(o) & mine:
+                    bad = (which, t, "x" if which == "c1" else "y", xo if which == "c1" else yo)
+            if bad:
+                ctx.violation(rid, inst, f.where(c), "the factor %s = `%s` multiplies %s (`%s`) and is that operand's own divisor: the two scale factors are exchanged, the sum is a/d2 + b/d1" % bad)
+            else:
+                ctx.ok(rid, inst, f.where(c))
+    ctx.floor(rid, n, 3, "linear_combine calls with a divisor among the factors")
+
+
 def run(ctx):
     ctx.explanation = ("C02 degenerate-receiver clause: typestate (maybe-empty / known non-empty) of the receiver along all CFG paths to the call sites of members "
                        "that assert non-emptiness; decides this clause, not which set the operators compute")
@@ -449,6 +538,7 @@ def run(ctx):
     r2_5(ctx)
     r2_6(ctx)
     r2_7(ctx)
+    r2_8(ctx)
     from rules import dirty
     fxd = ctx.extract([F.lib_unit(n) for n in FILES + ["Generator.cc", "Constraint.cc", "Generator_System.cc", "Constraint_System.cc",
                                                         "Polyhedron_nonpublic.cc", "BHRZ03_Certificate.cc", "H79_Certificate.cc"]]
